@@ -1024,3 +1024,118 @@ func readLockWriterStress(env *vh.Env, rep *vh.Report, facts lockFacts) {
 		}
 	}
 }
+
+// ---------------------------------------------------------------- panic safety of the lock release
+
+// panicSafety: "no public operation can block forever on the structure's own lock" must survive a
+// panic inside an operation that the caller recovers from (the code releases by `defer`, so it does).
+// Instances are filled with values that make the code's own comparisons panic — uncomparable values
+// (slices) where the type stores interface{} values, user keys whose Equals panics, a comparator that
+// panics, queue callbacks that panic — then every exported method is called under recover, and
+// afterwards Size() (and a second call of the method) must still return: a hang after a recovered
+// panic is `<T>.<M>:lock-leaked-after-panic`.
+func panicSafety(env *vh.Env, rep *vh.Report) {
+	atomic.StoreInt32(&poisonMode, 1)
+	defer atomic.StoreInt32(&poisonMode, 0)
+	defer atomic.StoreInt32(&poisonArmed, 0)
+	panicking := func(interface{}) { panic("user callback panics") }
+	for _, c := range ctors {
+		if isDead(c.name) {
+			continue
+		}
+		for _, m := range methodNames(c.mk()) {
+			if blocksByDesign(c.name, m, false) && false {
+				continue
+			}
+			for _, seed := range []int{1, 2} {
+				atomic.StoreInt32(&poisonArmed, 0)
+				obj := c.mk()
+				insertN(obj, 1, 3)
+				switch q := obj.(type) {
+				case *queue.RequestQueue:
+					q.SetCapacity(3) // full: Put is refused (Failed), PutForce evicts (Overflowed)
+					q.Failed, q.Overflowed = panicking, panicking
+				}
+				meth := reflect.ValueOf(obj).MethodByName(m)
+				args, ok := buildArgs(obj, meth.Type(), seed, c.mk)
+				if !ok {
+					continue
+				}
+				atomic.StoreInt32(&poisonArmed, 1)
+				out := vh.GuardTimeout(2*time.Second, func() { meth.Call(args) })
+				atomic.StoreInt32(&poisonArmed, 0)
+				rep.Case(fmt.Sprintf("panic-safety %s.%s seed=%d", c.name, m, seed), out.Panic != "")
+				rep.Count("panic-safety:" + out.String())
+				if out.Panic == "" {
+					continue // no panic provoked (or a hang: the sweep's business)
+				}
+				after := vh.GuardTimeout(time.Second, func() { reflect.ValueOf(obj).MethodByName("Size").Call(nil) })
+				if after.Timeout {
+					rep.Fail("property", c.name+"."+m+":lock-leaked-after-panic",
+						fmt.Sprintf("%s.%s panicked (%s) on values of an uncomparable type / a panicking user callback; the caller recovered, but the instance lock was not released: Size() never returns", c.name, m, vh.Clip(out.Panic, 80)),
+						map[string]interface{}{"type": c.name, "method": m, "panic": vh.Clip(out.Panic, 200),
+							"how": "fill the instance with three entries whose interface{} values are slices (keys: user keys whose Equals panics; comparators and queue callbacks that panic), call the method under recover, then call Size() under a 1 s watchdog"})
+					break
+				}
+			}
+		}
+	}
+}
+
+// ---------------------------------------------------------------- a timed-out get must not leave a consumer behind
+
+// orphanConsumers: GetTimeout on an empty queue times out (n times); then one element is put.  It must
+// still be there (Size() = 1 a moment later) and the next GetNoWait must return it — a timed get that
+// left a hidden consumer behind lets the element vanish without any dequeue returning it.
+func orphanConsumers(env *vh.Env, rep *vh.Report) {
+	for _, dbl := range []bool{false, true} {
+		for _, n := range []int{1, 3} {
+			for mode := 0; mode < 4; mode++ {
+				var getT func(int) interface{}
+				var getNW func() interface{}
+				var put func(interface{}) bool
+				var size func() int
+				name := "RequestQueue"
+				if dbl {
+					name = "RequestDoubleQueue"
+					d := queue.NewRequestDoubleQueue(4, 4)
+					getT, getNW, size = d.GetTimeout, d.GetNoWait, d.Size
+					put = []func(interface{}) bool{d.Put1, d.PutForce1, d.Put2, d.PutForce2}[mode]
+				} else {
+					q := queue.NewRequestQueue(4)
+					getT, getNW, size = q.GetTimeout, q.GetNoWait, q.Size
+					put = []func(interface{}) bool{q.Put, q.PutForce}[mode%2]
+				}
+				if isDead(name) {
+					continue
+				}
+				bad := ""
+				for i := 0; i < n && bad == ""; i++ {
+					var v interface{}
+					if o := vh.GuardTimeout(5*time.Second, func() { v = getT(3) }); !o.OK() {
+						bad = "GetTimeout(3) on an empty queue: " + o.String()
+					} else if v != nil {
+						bad = fmt.Sprintf("GetTimeout on an empty queue returned %v", v)
+					}
+				}
+				szv, got := -1, interface{}(nil)
+				if bad == "" {
+					put(4242)
+					time.Sleep(15 * time.Millisecond)
+					vh.GuardTimeout(2*time.Second, func() { szv = size(); got = getNW() })
+					if szv != 1 || got != 4242 {
+						bad = fmt.Sprintf("after %d timed-out GetTimeout calls, Put(4242): Size() = %d and GetNoWait() = %v — the element vanished without any dequeue returning it", n, szv, got)
+					}
+				}
+				rep.Case(fmt.Sprintf("orphan-consumer %s n=%d mode=%d", name, n, mode), true)
+				rep.Count("orphan-consumer:runs")
+				if bad != "" {
+					rep.Fail("property", name+".GetTimeout:loses-later-element", name+": "+bad,
+						map[string]interface{}{"type": name, "timed_out_calls": n, "put_mode": mode, "size": szv, "got": fmt.Sprint(got),
+							"how": "n × GetTimeout(3) on an empty queue (each returns nil); Put(4242); wait 15 ms; Size() must be 1 and GetNoWait() must return 4242"})
+					return
+				}
+			}
+		}
+	}
+}
